@@ -3,7 +3,7 @@ import pipeline
 
 LEAN_MODULES = ['PomerolModel.Properties.C09']
 GENERATED = ['dm']
-THEOREMS = ["Pomerol.Properties.C09." + t for t in ['weights_normalised', 'weights_positive', 'weight_ratio', 'shift_invariance', 'no_overflow', 'average_energy_is_trace', 'diagonal_average_is_trace', 'operator_average_is_trace']]
+THEOREMS = ["Pomerol.Properties.C09." + t for t in ['weights_normalised', 'weights_positive', 'weight_ratio', 'shift_invariance', 'no_overflow', 'average_energy_is_trace', 'diagonal_average_is_trace', 'operator_average_is_trace', 'occupancies_are_traces', 'computed_weights_are_gibbs', 'ensemble_average_is_trace']]
 RULE = 'a case = random model, beta from 1e-3 to 1e3, optional large energy offset through level terms; weights, <H>, <N>, <n_i>, <n_i n_j>, <c+_i c_j> compared with traces over the full Fock space; non-trivial = distinct case'
 TRUSTED = ["harness/pipe.cpp drives the real classes along the documented workflow; case-file protocol with hex doubles",
            "numeric oracle (lean/Driver/Numeric*.lean): IEEE double arithmetic of compiled Lean, full-Fock-space sums",
